@@ -2,13 +2,20 @@ package main
 
 import (
 	"fmt"
-	"os"
+	"strings"
 )
 
 func init() {
 	cmds["probe"] = func(args []string) int {
-		r, err := wholeDocSelect(os.Args[2], os.Args[3])
-		fmt.Println(r, err)
+		for _, f := range c10Formats() {
+			if f.Name != args[0] {
+				continue
+			}
+			sch, err, p := newSchema([]byte(f.Schema))
+			fmt.Println(err, p)
+			o := runTranscript(sch, strings.NewReader(f.Wrap(f.OK[:1])), RunOpts{MaxReads: 5})
+			fmt.Printf("%+v\n", o)
+		}
 		return 0
 	}
 }
